@@ -1,7 +1,7 @@
 #!/bin/bash
 # seed_confirm7.sh <PID> <A|B> : confirm a wave-7 deliverable in the scratch worktree /tmp/wt/my:
 #   patch applies to clean HEAD; demo exits 0 without / 1 with; pinned suite stays green with the patch; then run the quick check of <PID>.
-PID="$1"; V="$2"; WT=/tmp/wt/my; SRC=/tmp/wtout7/$PID
+PID="$1"; V="$2"; WT=${WT:-/tmp/wt/my}; SRC=/tmp/wtout7/$PID
 git -C $WT checkout -q -- . && git -C $WT clean -fdq
 PYTHONPATH=$WT/src /venv/bin/python $SRC/demo_$V.py >/dev/null 2>&1; echo "demo_without=$?"
 git -C $WT apply $SRC/$V.diff || { echo "PATCH DOES NOT APPLY"; exit 3; }
